@@ -15,13 +15,17 @@ import (
 // https://github.com/openconfig/reference/blob/master/rpc/gnmi/gnmi-path-conventions.md#wildcards-in-paths
 func MatchWildcardRegexp(query string, exact bool) *regexp.Regexp {
 	const legalChars = `a-zA-Z0-9_:,\-\.`
-	regexpQuery := strings.ReplaceAll(query, `[`, `\[`)
-	regexpQuery = strings.ReplaceAll(regexpQuery, `*`, `[`+legalChars+`]*?`) // Not greedy
-	regexpQuery = strings.ReplaceAll(regexpQuery, `...`, `.*`)               // greedy
+	// Everything except the wildcards is literal text: quote it, so that a '.' in a name only matches
+	// itself and text such as '(' cannot produce an invalid expression.
+	regexpQuery := regexp.QuoteMeta(strings.TrimSuffix(query, "/"))           // "/" and "" both address the root
+	regexpQuery = strings.ReplaceAll(regexpQuery, `\.\.\.`, `.*`)             // greedy
+	regexpQuery = strings.ReplaceAll(regexpQuery, `\*`, `[`+legalChars+`]*?`) // Not greedy
 	if exact {
 		return regexp.MustCompile(fmt.Sprintf("^%s$", regexpQuery))
 	}
-	return regexp.MustCompile(fmt.Sprintf("^%s", regexpQuery))
+	// a non-exact match is the node itself or anything below it: the query must end at a path element
+	// boundary ('/' starts a child, '[' starts the keys of a list entry), /a/b does not match /a/bc
+	return regexp.MustCompile(fmt.Sprintf(`^%s(?:[/\[].*)?$`, regexpQuery))
 }
 
 // MatchWildcardChNameRegexp creates a Regular Expression from a wild-carded path
